@@ -33,7 +33,9 @@ def _hsize(h):
     n = 0
     for c in h:
         n += 10
-        if c[0] == 'add':
+        if c[0] == 'node':
+            n += 1
+        elif c[0] == 'add':
             n += (1 if c[4] is None else 1 + c[4] - c[3]) + abs(c[3])
         else:
             n += 3 * len(c[1])
@@ -93,6 +95,7 @@ C17_STRUCTURED = [
     [('path', (1, 2, 3, 4), 0), ('add', 1, 4, 1, 3), ('star', (2, 1, 3, 4), 4)],
     [('add', 1, 2, 0, 2), ('add', 3, 4, 2, 4)],     # two components that never coexist
     [('add', 1, 2, 0, None), ('add', 3, 4, 0, None)],
+    [('add', 1, 2, 0, 2), ('node', 9), ('add', 2, 3, 1, 4), ('add', 1, 2, 6, 7)],       # a node of the graph that never interacts
 ]
 
 
@@ -278,6 +281,12 @@ def c17_statistics(tier, seed):
         if cls == 'DynGraph' and not _has_selfloop(M) and M.instants():
             stats_states += 1
             c17_stat_checks(G, M, emit)
+            if stats_states % 8 == 1 and not any(c[0] == 'node' for c in h):
+                # the same state with one more node that never interacts (V counts it, every T_u of it is empty)
+                h2 = list(h) + [('node', 9)]
+                G2, M2, _o = run_history(cls, removal, h2, probing=False)
+                stats_states += 1
+                c17_stat_checks(G2, M2, lambda check, detail, **extra: col.violation(check, cls, removal, h2, detail, **extra))
         if M.instants():
             iet_states += 1
             c17_iet_checks(G, M, emit)
